@@ -203,6 +203,35 @@ def provoked():
                 yield dict(a=i, b='s%d' % i)
         return gen()
 
+    def dying_with(n, die_at, make):
+        def gen():
+            for i in range(n):
+                if i == die_at:
+                    raise make()
+                yield dict(a=i, b='s%d' % i)
+            if die_at >= n:
+                raise make()
+        return gen()
+
+    class _NeedsArgs(Exception):
+        def __init__(self, code, detail):
+            super().__init__('%s: %s' % (code, detail))
+
+    def _unicode_error():
+        try:
+            b'\xff\xfe\xfd'.decode('utf-8')
+        except UnicodeDecodeError as e:
+            return e
+    # the cause is the ORIGINAL exception whatever its class - also for the classes the table reader treats specially on its way
+    # (encoding / io / format errors), and wherever in the source it happens (inside / after the inference sample, at exhaustion)
+    for label, make, cname in (('UnicodeDecodeError', _unicode_error, 'UnicodeDecodeError'), ('OSError', lambda: OSError(5, 'disk gone'), 'OSError'),
+                               ('LookupError', lambda: LookupError('no such thing'), 'LookupError'),
+                               ('an exception class with a constructor of its own', lambda: _NeedsArgs(7, 'x'), '_NeedsArgs'),
+                               ('io.UnsupportedOperation', lambda: io.UnsupportedOperation('seek'), 'UnsupportedOperation')):
+        for n, die_at in ((150, 5), (150, 120), (150, 150), (3, 3)):
+            cases.append(('source raises %s at row %d of %d' % (label, die_at, n),
+                          lambda root, n=n, die_at=die_at, make=make: [dying_with(n, die_at, make)], {cname}))
+
     def bad_package(root, dup_key=False):
         d = os.path.join(root, 'badpkg')
         os.makedirs(d, exist_ok=True)
